@@ -91,9 +91,25 @@ def lean_build(modules):
     return rc == 0, fails, out, time.time() - t0
 
 def theorems_in(module):
+    """fully qualified names of the theorems declared in a module (tracks namespace/end)"""
     path = os.path.join(LEAN, module.replace(".", "/") + ".lean")
     src = strip_comments(open(path).read())
-    return re.findall(r"^\s*theorem\s+([^\s:({\[]+)", src, flags=re.M)
+    ns, out = [], []
+    for line in src.split("\n"):
+        m = re.match(r"^\s*namespace\s+(\S+)", line)
+        if m:
+            ns.append(m.group(1)); continue
+        m = re.match(r"^\s*end\s+(\S+)\s*$", line)
+        if m and ns and ns[-1] == m.group(1):
+            ns.pop(); continue
+        m = re.match(r"^\s*(?:private\s+|protected\s+)?theorem\s+([^\s:({\[]+)", line)
+        if m:
+            name = m.group(1)
+            if name.startswith("_root_."):
+                out.append(name[len("_root_."):])
+            else:
+                out.append(".".join(ns + [name]))
+    return out
 
 def audit(pid, modules):
     """run #print axioms on every theorem of the property modules; returns dict name->axioms"""
@@ -107,9 +123,8 @@ def audit(pid, modules):
         for m in modules:
             f.write("import %s\n" % m)
         # theorems are declared inside `namespace NB` (possibly nested); let Lean resolve them
-        f.write("open NB\n")
         for m, t in names:
-            f.write("#print axioms %s\n" % (t if t.startswith("NB.") else "NB." + t))
+            f.write("#print axioms %s\n" % t)
     rc, out = sh(["lake", "env", "lean", path], cwd=LEAN, timeout=1200)
     res = {}
     text = out.replace("\n  ", " ").replace("\n ", " ")
@@ -369,7 +384,7 @@ def main():
         if proof_ok and modules:
             rc, axioms, thm_names, aout = audit(pid, modules)
             for (m, t) in thm_names:
-                full = t if t.startswith("NB.") else "NB." + t
+                full = t
                 if full not in axioms:
                     machinery_errors.append("no #print axioms result for %s" % full)
                 else:
@@ -541,7 +556,7 @@ def main():
 
     # 8. evidence
     n_thm = len(thm_names)
-    discharged = sum(1 for (m, t) in thm_names if ((t if t.startswith("NB.") else "NB." + t) in axioms)) if proof_ok else 0
+    discharged = sum(1 for (m, t) in thm_names if t in axioms) if proof_ok else 0
     distinct = len({l for l in lines if nontrivial(l)})
     axset = sorted({a for v in axioms.values() for a in v})
     cov = {
